@@ -118,8 +118,9 @@ SEMANTIC = {
     'ambiguous-constant': (['fa.p = %AMBIG', 'fa.p = (1, %AMBIG)'], ValueError),
     'denylisted-parameter': (['fd.q = 1', 's/fd.q = 1'], ValueError),
     'bad-include': (["include 'no/such/file.gin'"], OSError),
+    # "keeps its original exception type": importing a missing module raises ModuleNotFoundError
     'bad-import': (['import vf_no_such_module_xyz', 'from vf_no_such_pkg import thing'],
-                   ImportError),
+                   ModuleNotFoundError),
 }
 VALUE_LEVEL = ('unknown-reference', 'ambiguous-constant')
 
